@@ -312,13 +312,23 @@ theorem goodMap_comp (a r : Trans) (fr : Text) (n m k : Nat) (ha : GoodMap a n m
     rw [a1] at h1'; rw [b1] at h2'
     exact hr.mono ei ej di dj (ha.mono i j ei ej hij hj a1 b1) b2 h1' h2'
 
-mutual
-/-- **every single processor has good position maps** (BeforeInput shift, tab expansion, the
-    length-preserving replacements with identity maps, conditional / dynamic wrappers, nested merges) -/
-theorem applyProc_good (l lc : Nat) : ∀ (p : Proc), ProcOK p → ∀ (t : Text),
-    GoodMap (applyProc l lc p t) t.length (applyProc l lc p t).frags.length
-  | .tabs ts c1 c2, hp, t => applyProc_tabs_good l lc ts c1 c2 hp t
-  | .before b, _, t => by
+/-- `fragment_list_len` (containment test) counts exactly the characters that are drawn: zero-width-escape
+    fragments add neither a column to the shift nor a cell to the line -/
+theorem fragLen_visible (fr : List (Bool × Text)) : fragLen fr = (fragVisible fr).length := by
+  induction fr with
+  | nil => rfl
+  | cons p rest ih =>
+    obtain ⟨zw, t⟩ := p
+    cases zw <;> simp [fragLen, fragVisible, ih]
+
+/-- a BeforeInput with zero-width-escape fragments behaves exactly like a BeforeInput of its visible text -/
+theorem applyProc_beforeF (l lc : Nat) (fr : List (Bool × Text)) (t : Text) :
+    applyProc l lc (.beforeF fr) t = applyProc l lc (.before (fragVisible fr)) t := by
+  unfold applyProc
+  rw [fragLen_visible]
+
+theorem applyProc_before_good (l lc : Nat) (b : Text) (t : Text) :
+    GoodMap (applyProc l lc (.before b) t) t.length (applyProc l lc (.before b) t).frags.length := by
     unfold applyProc
     by_cases hl : l = 0
     · simp only [hl, if_true]
@@ -334,6 +344,17 @@ theorem applyProc_good (l lc : Nat) : ∀ (p : Proc), ProcOK p → ∀ (t : Text
     · simp only [hl, if_false]
       have := goodMap_id (n := t.length) t 0
       simpa [idTrans] using this
+
+mutual
+/-- **every single processor has good position maps** (BeforeInput shift, tab expansion, the
+    length-preserving replacements with identity maps, conditional / dynamic wrappers, nested merges) -/
+theorem applyProc_good (l lc : Nat) : ∀ (p : Proc), ProcOK p → ∀ (t : Text),
+    GoodMap (applyProc l lc p t) t.length (applyProc l lc p t).frags.length
+  | .tabs ts c1 c2, hp, t => applyProc_tabs_good l lc ts c1 c2 hp t
+  | .before b, _, t => applyProc_before_good l lc b t
+  | .beforeF fr, _, t => by
+    rw [applyProc_beforeF]
+    exact applyProc_before_good l lc (fragVisible fr) t
   | .after a, _, t => by
     unfold applyProc
     by_cases hl : l + 1 = lc
